@@ -160,3 +160,15 @@
                   (=> (< p 5) (and (= (tS t) 0) (= (tNs t) 0))))
              (=> (< p 5) (= (tInst (truncDT t p)) (tInst t))))))
    :pattern ((truncDT t p)))))
+; time of day of an instant in microseconds, in UTC: what a FHIR Time element stores
+(define-fun todUs ((t Time)) Int (mod (div (tInst t) 1000) 86400000000))
+; ASSUMED (package time: unix time, no leap seconds): in UTC the instant modulo one day is the
+; civil time of day
+(assert (forall ((t Time)) (! (=> (and (= (tOff t) 0) (civRanges t))
+    (= (mod (tInst t) 86400000000000) (+ (* (+ (* (+ (* (tH t) 60) (tMi t)) 60) (tS t)) 1000000000) (tNs t))))
+   :pattern ((tInst t) (tH t)))))
+; names for results the time package decides (zone text of a Time, offset a zone text denotes,
+; offset of a *time.Location at an instant)
+(declare-fun tzS (Time) String)
+(declare-fun zoneOffS (Int) Int)
+(declare-fun locOff (Int Int) Int)
